@@ -62,6 +62,11 @@ type opRec struct {
 	man     string // manifest digest concerned
 	writes  map[string]bool
 	repo    string
+	// the effect the client was told about (set only when the request was acknowledged): after a crash at the very
+	// next quiescent point it must be in effect
+	ackTag  string // "tag" was acknowledged to ...
+	ackTagD string // ... resolve to this digest ("" = deleted)
+	ackBlob string // this content was acknowledged as stored
 }
 
 func cloneSnap(s vh.Snap) vh.Snap {
@@ -256,12 +261,13 @@ func batch(r *vh.Run, i int) {
 						f := w.Do(vh.Req{Method: "PUT", URL: p.H.Get("Location") + "&digest=" + b.D, Body: b.B[half:]})
 						if f.Status == 201 {
 							m.Stored[b.D] = b.B
+							rec.ackBlob = b.D
 						}
 					}
 				}
 				w.T("chunked blob %s/%s", repo, b.Name)
-			} else {
-				w.PushBlob(repo, b)
+			} else if w.PushBlob(repo, b).Status == 201 {
+				rec.ackBlob = b.D
 			}
 		case k < 12:
 			mm := u.Mans[rng.Intn(len(u.Mans))]
@@ -274,13 +280,19 @@ func batch(r *vh.Run, i int) {
 			}
 			rec.kind, rec.desc, rec.subject, rec.man = "put", "put "+mm.Name+" as "+tag, mm.Subject, mm.D
 			rec.writes[mm.D] = true
-			if rs, ok := w.PutManifest(repo, mm, tag); (rs.Status == 201) != ok {
+			rs, ok := w.PutManifest(repo, mm, tag)
+			if (rs.Status == 201) != ok {
 				r.Count("foreign_put_status", 1)
+			}
+			if rs.Status == 201 && tag != "" {
+				rec.ackTag, rec.ackTagD = tag, mm.D
 			}
 		case k < 14:
 			tag := u.Tags[rng.Intn(len(u.Tags))]
 			rec.kind, rec.desc = "deltag", "deltag "+tag
-			w.DeleteTag(repo, tag)
+			if rs, _ := w.DeleteTag(repo, tag); rs.Status == 202 {
+				rec.ackTag, rec.ackTagD = tag, ""
+			}
 		case k < 17:
 			var ds []string
 			for d := range m.Mans {
@@ -377,6 +389,36 @@ func batch(r *vh.Run, i int) {
 		}
 	}
 	trace := w.Trace
+	// (1) "every push, tag move or delete that had been acknowledged before the crash is still in effect": the effect of
+	// request j itself, looked up in the reopened quiescent image taken right after it (narrow on purpose: whether the
+	// rest of a quiescent disk equals the API state is restart equivalence, C10)
+	for j, rec := range ops {
+		q, ok := quietObs[j+1][rec.repo]
+		if !ok {
+			continue
+		}
+		wit := map[string]any{"batch": i, "request_index": j + 1, "request": rec.desc, "history": trace}
+		if rec.ackTag != "" {
+			r.Count("acknowledged_effects_checked", 1)
+			if got := q.TagD[rec.ackTag]; got != rec.ackTagD {
+				what := "resolves to " + vh.Short(got)
+				if got == "" {
+					what = "does not resolve"
+				}
+				want := "resolve to " + vh.Short(rec.ackTagD)
+				if rec.ackTagD == "" {
+					want = "be gone"
+				}
+				r.Violation("acknowledged-lost:"+rec.kind, fmt.Sprintf("request %d (%s) was acknowledged; in the directory as it is right after the request, opened by a new server, tag %s %s (it should %s)", j+1, rec.desc, rec.ackTag, what, want), wit)
+			}
+		}
+		if rec.ackBlob != "" {
+			r.Count("acknowledged_effects_checked", 1)
+			if got, known := q.Blob[rec.ackBlob]; known && !got {
+				r.Violation("acknowledged-lost:"+rec.kind, fmt.Sprintf("request %d (%s) was acknowledged; in the directory as it is right after the request, opened by a new server, the content is not served", j+1, rec.desc), wit)
+			}
+		}
+	}
 	has := func(l []string, x string) bool {
 		for _, y := range l {
 			if y == x {
